@@ -102,7 +102,49 @@ def rule_hunted(ctx: Ctx) -> None:
     ctx.ob("C15-2", "G2", lc, clr[0] if clr else None, len(clr) == 1, "LSMTree.crash() forgets the sequence numbers of writes that were in flight (else the checkpoint bound stays below every later write and the log is never truncated again)")
 
 
+def rule_round4(ctx: Ctx) -> None:
+    """(a) C15-1: log sequence numbers are never reused — every write of `_next_sequence` outside the constructor is `+= 1`.  The LSM tree
+    identifies an append in flight by its number; a number handed out twice lets the late `discard` of a dead append release the marker of a
+    live one, and the next checkpoint truncates a record that is in no memtable yet.
+    (b) C15-3 (dependency on C14-2): the compaction latch is not cleared by crash().
+    (c) C15-3: `Memtable.flush()` hands over *everything* it discards: the SSTable is built from all of `self._data` (no slice, no filter)
+    and the memtable is emptied — `_flush_memtable` drops the flushed memtable and truncates the log past all of its entries."""
+    prog = ctx.prog
+    n = 0
+    for rel in (WAL, LSM, MEMT):
+        for fn in prog.module(rel).all_functions:
+            for st in walk_stmts(fn.node.body):
+                tg = st.targets if isinstance(st, ast.Assign) else [st.target] if isinstance(st, (ast.AnnAssign, ast.AugAssign)) else []
+                if not any(isinstance(t, ast.Attribute) and t.attr == "_next_sequence" for t in tg):
+                    continue
+                n += 1
+                ok = (fn.name == "__init__" and isinstance(getattr(st, "value", None), ast.Constant)) or increment_of(st, unparse(tg[0])) == 1
+                ctx.ob("C15-1", "G6", fn, st, ok, f"{fn.qual}: `{norm_stmt(st)}` — the log's sequence counter only moves forward by one per append (never re-based, not even after a crash)")
+    need(n >= 3, f"C15-1: expected >= 3 writes of _next_sequence (init, append, append_sync), found {n}")
+    from .c14 import compaction_latch_rules
+    compaction_latch_rules(ctx, "C15-3")
+    fl = prog.func(MEMT, "Memtable.flush")
+    sd = single_defs(fl)
+    mk = [c for c in calls_in(fl.node) if path_of(c.func) == "SSTable"]
+    ok = len(mk) == 1 and bool(mk[0].args)
+    why = ""
+    if ok:
+        data = expand(mk[0].args[0], sd)
+        src = None
+        if isinstance(data, ast.ListComp) and len(data.generators) == 1 and not data.generators[0].ifs:
+            src = data.generators[0].iter
+        elif isinstance(data, ast.Call) and path_of(data.func) in ("list", "sorted", "tuple") and len(data.args) == 1:
+            src = data.args[0]
+        full = src is not None and unparse(src).replace(" ", "") in ("self._data.items()",)
+        emptied = [c for c in calls_in(fl.node) if path_of(c.func) == "self._data.clear"] or \
+                  [st for st in walk_stmts(fl.node.body) if isinstance(st, ast.Assign) and path_of(st.targets[0]) == "self._data" and ((isinstance(st.value, ast.Dict) and not st.value.keys) or (isinstance(st.value, ast.Call) and path_of(st.value.func) == "dict" and not st.value.args))]
+        ok = full and bool(emptied)
+        why = "" if ok else (f" — the table is built from `{unparse(data)[:80]}`" if not full else " — the memtable is not emptied")
+    ctx.ob("C15-3", "G6", fl, mk[0] if mk else None, ok, "Memtable.flush builds the SSTable from every entry of `self._data` and empties the memtable: what the caller discards and truncates from the log is exactly what the table holds" + why)
+
+
 def run(ctx: Ctx) -> None:
+    ctx.guarded(rule_round4)
     ctx.guarded(rule_hunted)
     ctx.guarded(rule_crash_drops_unfinished_flush)
     prog = ctx.prog
@@ -287,6 +329,9 @@ def run(ctx: Ctx) -> None:
 
 
 MUTANTS = [
+    ("wal-crash-rebases-sequence", WAL, "        self._writes_since_sync = 0\n        self._crash_count += 1\n        return lost", "        self._writes_since_sync = 0\n        self._next_sequence = self._synced_up_to_sequence + 1\n        self._crash_count += 1\n        return lost", "C15-1"),
+    ("lsm-crash-clears-compaction-latch", LSM, "        self._immutable_memtables.clear()\n\n        # Writes suspended in their WAL append", "        self._immutable_memtables.clear()\n        self._compaction_in_progress = False\n\n        # Writes suspended in their WAL append", "C15-3"),
+    ("memtable-flush-keeps-overflow", MEMT, "        data = [(k, v) for k, v in self._data.items()]\n", "        data = [(k, v) for k, v in self._data.items()][: self._size_threshold]\n", "C15-3"),
     ("crash-keeps-in-flight-sequences", LSM, "        self._wal_in_flight.clear()\n", "", "C15-2"),
     ("append-claims-durability-across-crash", WAL, "            if crash_count != self._crash_count:\n                # Power was lost mid-fsync: this sync never completed, so it\n                # must not mark the (discarded) entry as durable.\n                return seq\n", "", "C15-1"),
     ("put-applies-after-crash", LSM, "            if crash_count != self._crash_count:\n                # Power was lost mid-write: the write died with the process.\n                # If its log entry was already durable, recovery replayed it.\n                return\n", "", "C15-1"),
